@@ -72,13 +72,10 @@ JOBS = [
     dict(name='c18_flush_row_group_b', entry='h_flush_row_group', functions=['flush_row_group'], est_s=40, **BND, **W),
     dict(name='c18_new_row_group_b', entry='h_new_row_group',
          functions=['carquet_writer_new_row_group', 'ensure_header_written', 'flush_row_group'], est_s=45, **BND, **W),
+    # found: carquet_writer_close ignored fflush()/fclose() results (returned OK on /dev/full); repaired upstream in
+    # ab461a2.  Validated on scratch copies: fix reverted => VIOLATION (native: /dev/full); `goto cleanup` removed after
+    # the failed footer-length fwrite => VIOLATION (native: one-shot failing fopencookie sink, write call #3).
     dict(name='c18_close_io_b', entry='h_close_io', functions=['carquet_writer_close'], replayer=RP_CLOSE, est_s=100,
-         wip=True,
-         note='FINDING (genuine, unchanged tree): carquet_writer_close ignores the results of fflush() and fclose(); '
-              'it returns CARQUET_OK although the sink failed (natively: /dev/full, every call OK, no byte stored). '
-              'Obligations "close returns OK => no sink failure" and "=> accepted bytes were flushed" fail; the job is ok '
-              'on a copy with the 2-hunk fix (check fflush, check fclose). Flip to wip=False once /repo has the fix '
-              'or known_findings.json lists it.',
          **BND, **W),
     dict(name='c18_close_resources_b', entry='h_close_resources', functions=['carquet_writer_close', 'build_file_metadata'],
          checks=LEAK, est_s=100, **BND, **W),
